@@ -28,7 +28,9 @@ def S0(h, k):
 
 def total(h, k):
     s = X('s')
-    return z3.ForAll([s], z3.Implies(V(h, k)[s], hp.nonempty(succ(h, k, s))))
+    # (trigger on the successor set, not on V[s]: with `edges end in nodes` the trigger V[s] forms a matching
+    #  loop  s -> pick(succ(s)) -> pick(succ(pick(succ(s)))) ...)
+    return z3.ForAll([s], z3.Implies(V(h, k)[s], hp.nonempty(succ(h, k, s))), patterns=[succ(h, k, s)])
 
 
 def wfK(h, k):
